@@ -24,7 +24,7 @@ TAG_MUT = "C13/mut"
 TAG_CORPUS = "C13/corpus"
 
 TIERS = {
-    "quick": dict(seeds=3, generated=120, mutated=160, d3_every=2, aslr_probe=24, zoo_step=3),
+    "quick": dict(seeds=3, generated=120, mutated=160, d3_every=2, aslr_probe=24, zoo_step=2),
     "thorough": dict(seeds=8, generated=8000, mutated=12000, d3_every=1, aslr_probe=300, zoo_step=1, large_runs=120),
 }
 
@@ -139,7 +139,7 @@ def corpus_sets():
 
 MISTAKES = ["dup_pub_fn", "dup_pub_const", "dup_pub_struct", "type_error_in_importer", "error_in_imported",
             "unresolved_import", "syntax_error", "undefined_in_two_modules", "cyclic_consts", "cyclic_structs",
-            "cyclic_struct_const", "multibyte_then_error", "triple_duplicate", "lints_in_two_files", "hex_separator_then_error", "deep_nesting", "lexical_error_in_name_position", "skipped_declarations", "long_line_then_error", "same_pub_fn_in_two_modules", "long_type_name", "same_missing_member_twice", "illegal_return_type_in_imported", "array_length_above_u32"]
+            "cyclic_struct_const", "multibyte_then_error", "triple_duplicate", "lints_in_two_files", "hex_separator_then_error", "deep_nesting", "lexical_error_in_name_position", "skipped_declarations", "long_line_then_error", "same_pub_fn_in_two_modules", "long_type_name", "same_missing_member_twice", "illegal_return_type_in_imported", "array_length_above_u32", "imported_file_not_passed"]
 
 
 def generated_set(seed, i):
@@ -255,6 +255,11 @@ def generated_set(seed, i):
             # a length the back end cannot represent: refused, but by which diagnostic?
             b = rng.randrange(sp.k)
             files[sp.files[b]] += "\nfn zz_big(buffer: &[5000000000]u8) -> u8\n{\n\treturn: buffer[0]\n}\n"
+        elif m == "imported_file_not_passed":
+            # the imported file is there, next to its importer, but not on the command line
+            b = rng.choice(tgts)
+            if sp.files[b] in names and len(names) > 1:
+                names.remove(sp.files[b])
         elif m == "triple_duplicate":
             b = rng.randrange(sp.k)
             files[sp.files[b]] += ("\nfn zz_tri()\n{\n}\n\nfn zz_tri()\n{\n}\n\nfn zz_tri()\n{\n}\n\nconst ZZ_TRI: i32 = 1;\nconst ZZ_TRI: i32 = 2;\nconst ZZ_TRI: i32 = 3;\n"
@@ -753,6 +758,16 @@ def evaluate_set(s, wd, cfg, rng, stats):
                     if not got_q.endswith(want_q) and not got_q.endswith("".join(c if ord(c) < 128 else "?" for c in want_q)) and "\x0b" not in want and "\x0c" not in want:
                         viol.append(("quoted_line_differs_from_source", "%s line %d is quoted as %r but reads %r" % (cur, ln, qm.group(2)[:120], want[:120]), {}))
                         break
+    # the baseline run of every set is colourless ASCII
+    if not panicked and (ESC in base_r.out or ESC in base_r.err):
+        viol.append(("color_never_has_escape", "--color=never --arrows=ascii (the baseline run): an escape sequence in the output: %r" %
+                     (base_r.err + base_r.out)[max(0, (base_r.err + base_r.out).find(ESC) - 40):(base_r.err + base_r.out).find(ESC) + 40], {}))
+    # every report has a code: no bare `Advice:` / `Warning:` / `Error:` report next to the coded ones
+    if not panicked:
+        for line in base_r.err.decode(errors="replace").split("\n"):
+            if re.match(r"^(Advice|Warning): ", line) or (line.startswith("Error: ") and base_heads and not line.startswith(("Error: compilation failed", "Error: Failed", "Error: No such", "Error: cannot"))):
+                viol.append(("report_without_code", "a report without a code: %r" % line[:160], {}))
+                break
     # a failing compilation says why in a diagnostic of its own: a code from the catalogue
     # (not a bare message of a library underneath, without code or location)
     # (the tool's own top-level `Error: ...` lines - unreadable input and the like - are C18's business)
